@@ -218,12 +218,25 @@ fn hosts_settings_unvalidated(kind: &str) -> Result<TlsHostsSettings, String> {
         "dup" => format!("[[main_hosts]]\n{}[[ping_hosts]]\n{}", host("n.t", "n.t"), host("n.t", "p.t")),
         "bad-key" => format!("[[main_hosts]]\nhostname = \"n.t\"\ncert_chain_path = \"{}\"\nprivate_key_path = \"{}\"\n", rt::cert_path("n.t"), rt::fixtures().join("certs").join("bad.key").display()),
         "no-main" => "main_hosts = []\n".to_string(),
+        // new, valid main hosts but a later class that cannot be loaded: nothing may be switched
+        "new-main-bad-ping-key" => format!(
+            "[[main_hosts]]\n{}[[ping_hosts]]\nhostname = \"p.t\"\ncert_chain_path = \"{}\"\nprivate_key_path = \"{}\"\n",
+            host("n.t", "n.t"),
+            rt::cert_path("p.t"),
+            rt::fixtures().join("certs").join("bad.key").display()
+        ),
+        "new-main-bad-speedtest-cert" => format!(
+            "[[main_hosts]]\n{}[[speedtest_hosts]]\nhostname = \"s.t\"\ncert_chain_path = \"{}\"\nprivate_key_path = \"{}\"\n",
+            host("n.t", "n.t"),
+            rt::fixtures().join("certs").join("bad.crt").display(),
+            rt::key_path("s.t")
+        ),
         _ => return hosts_settings(kind),
     };
     toml::from_str(&text).map_err(|e| e.to_string())
 }
 
-const RELOADS: [&str; 5] = ["A", "B", "dup", "bad-key", "no-main"];
+const RELOADS: [&str; 8] = ["A", "B", "dup", "bad-key", "no-main", "new-main-bad-ping-key", "new-main-bad-speedtest-cert", "validated-then-ping-key-corrupted"];
 
 fn reload_history(h: &[usize]) -> Result<Cow<'static, str>, Violation> {
     let case = json!({"kind":"reload","history": h.iter().map(|i| RELOADS[*i]).collect::<Vec<_>>()});
@@ -243,8 +256,24 @@ fn reload_history(h: &[usize]) -> Result<Cow<'static, str>, Violation> {
     };
     for (step, op) in h.iter().enumerate() {
         let kind = RELOADS[*op];
-        let settings = hosts_settings_unvalidated(kind);
         let valid = matches!(kind, "A" | "B");
+        let settings = if kind == "validated-then-ping-key-corrupted" {
+            // settings that passed validation when they were built; the ping host's key file is
+            // damaged before they are applied, so the new demultiplexer cannot be constructed
+            let dir = std::env::temp_dir().join(format!("ttv-c05-{}-{:?}", std::process::id(), std::thread::current().id()));
+            let _ = std::fs::create_dir_all(&dir);
+            let key = dir.join("ping.key");
+            let _ = std::fs::copy(rt::key_path("p.t"), &key);
+            let built = TlsHostsSettings::builder()
+                .main_hosts(vec![host_info("n.t", "n.t", &[])])
+                .ping_hosts(vec![trusttunnel::settings::TlsHostInfo { hostname: "p.t".into(), cert_chain_path: rt::cert_path("p.t"), private_key_path: key.to_string_lossy().into_owned(), allowed_sni: vec![] }])
+                .build()
+                .map_err(|e| format!("{e:?}"));
+            let _ = std::fs::write(&key, "not a key any more");
+            built
+        } else {
+            hosts_settings_unvalidated(kind)
+        };
         match settings {
             Err(e) if valid => return Err(Violation::new("C05:machinery", e, case)),
             Err(_) => {} // refused already while reading the file: nothing to reload
@@ -311,15 +340,15 @@ pub fn run(tier: Tier) -> i32 {
     let mut classes = r.classes.len() as u64;
     let mut complete = r.completed;
     // start-up refusal for invalid assignments is C13's table; here: reload histories
-    let depth = tier.pick(5u32, 7u32);
+    let depth = tier.pick(4u32, 6u32);
     let mut total = 0u64;
     for len in 1..=depth {
-        total += 5u64.pow(len);
+        total += 8u64.pow(len);
     }
     let r = sweep_dyn(total, 8, Duration::from_secs(1500), rt::workers(), |mut i| {
         let mut len = 1;
         loop {
-            let n = 5u64.pow(len);
+            let n = 8u64.pow(len);
             if i < n {
                 break;
             }
@@ -328,8 +357,8 @@ pub fn run(tier: Tier) -> i32 {
         }
         let mut h = vec![];
         for _ in 0..len {
-            h.push((i % 5) as usize);
-            i /= 5;
+            h.push((i % 8) as usize);
+            i /= 8;
         }
         reload_history(&h)
     });
@@ -340,10 +369,19 @@ pub fn run(tier: Tier) -> i32 {
     rep.sub.push(json!({"sub":"reload-histories","max_length":depth,"histories":total,"completed":r.completed}));
     rep.cov("distinct_nontrivial", classes);
     rep.cov("exhaustive", complete);
-    rep.cov("rule", format!("{} host configurations x 7 listener protocol sets x {} SNI strings x {} ALPN lists through TlsDemux::select of a real Core; every reload history of length <= {depth} over {{A, B, duplicate host, bad key, no main host}} with 6 probe selections after each step", cfgs.len(), SNIS.len(), alpn_n));
+    rep.cov("rule", format!("{} host configurations x 7 listener protocol sets x {} SNI strings x {} ALPN lists through TlsDemux::select of a real Core; every reload history of length <= {depth} over {{A, B, duplicate host, bad key, no main host, new main hosts + unloadable ping key, new main hosts + unloadable speedtest cert, validated settings whose ping key is corrupted before they are applied}} with 6 probe selections after each step", cfgs.len(), SNIS.len(), alpn_n));
     rep.sample(json!({"config":"ping-is-subdomain-of-main","listener":"h2","sni":"x.m.t","alpn":["http/1.1"],"expected":"refused (no common protocol)"}));
     rep.assume("an SNI that is both a configured alternative SNI and of the <credentials>.<main host> form is unconstrained; an empty credentials label is unconstrained");
     rep.assume("QUIC certificate switching and the TCP-side refusal of an h3 result are exercised through the real TLS path in C12, not here; RwLock atomicity of reload vs concurrent selects is trusted (each is one lock-protected operation)");
+    // scratch key files of the `validated-then-ping-key-corrupted` reloads
+    if let Ok(rd) = std::fs::read_dir(std::env::temp_dir()) {
+        let prefix = format!("ttv-c05-{}-", std::process::id());
+        for e in rd.flatten() {
+            if e.file_name().to_string_lossy().starts_with(&prefix) {
+                let _ = std::fs::remove_dir_all(e.path());
+            }
+        }
+    }
     rep.finish()
 }
 
